@@ -88,6 +88,18 @@ Example C07_example :
         [SText 2 [(102%N, 1); (103%N, 1)]]].
 Proof. vm_compute. reflexivity. Qed.
 
+(* The syntax and the diff section lists of one line are wrapped separately and must come out in
+   lock-step.  That holds for ordinary text, but NOT for every input: a zero-width cluster of its
+   own (U+200B) after text that fills the width exactly is wrapped differently depending on where
+   the section boundary falls — which is why the code falls back to the diff sections' rows when
+   the two disagree (repaired defect F29) instead of asserting. *)
+Example C07_split_independence_refuted :
+  let c := mkW 2 0 370 in
+  stack_text [(1, [(97%N, 1); (98%N, 1)]); (2, [(8203%N, 0)])] = stack_text [(1, [(97%N, 1); (98%N, 1); (8203%N, 0)])] /\
+  option_map (@length WrapLine.row) (wrap_line 20 c [(1, [(97%N, 1); (98%N, 1)]); (2, [(8203%N, 0)])]) = Some 2 /\
+  option_map (@length WrapLine.row) (wrap_line 20 c [(1, [(97%N, 1); (98%N, 1); (8203%N, 0)])]) = Some 1.
+Proof. vm_compute. repeat split. Qed.
+
 Example C07_realign_example :
   realign [EL 0; EB 1 0; ER 1] [1; 3] [2; 1] 0 0 0 0 =
   Some [RL 0; RB 1 0; RB 2 1; RL 3; RR 2].
